@@ -803,13 +803,17 @@ def gen_tok_cases(seed, tier, consts):
     A, B, X, Y = 0x2c, 0x3b, 0x61, 0x62      # ',' ';' 'a' 'b'
     sets = {'A': [A], 'AB': [A, B], 'B': [B], 'E': [], 'L16': [A] + list(range(0x30, 0x3f)), 'L17': list(range(0x41, 0x52)), 'L20': list(range(0x41, 0x55))}
     maxlen = 5 if tier == 'quick' else 7
-    for func, w in (('strtok_seq', 1), ('wcstok_seq', 4)):
-        for L in range(0, maxlen + 1):
-            for chars in itertools.product([A, B, X, Y] if L <= 4 else [A, X, B], repeat=L):
+    # second family: delimiters and characters with the top bit set (plain char is signed; wchar_t is a signed 32-bit type)
+    sets.update({'H': [0xa0], 'HA': [0xa0, A], 'WH': [0x80000001], 'WHA': [0x80000001, A]})
+    fams = [('strtok_seq', 1, [A, B, X, Y], [A, X, B], None), ('wcstok_seq', 4, [A, B, X, Y], [A, X, B], None),
+            ('strtok_seq', 1, [0xa0, A, X, 0xe9], None, (('H',), ('HA',), ('A', 'H'))), ('wcstok_seq', 4, [0x80000001, A, X, 0x20ac], None, (('WH',), ('WHA',), ('A', 'WH')))]
+    for func, w, alpha4, alpha3, pats in fams:
+        for L in range(0, (maxlen if pats is None else 4) + 1):
+            for chars in itertools.product(alpha4 if L <= 4 else alpha3, repeat=L):
                 if func == 'wcstok_seq' and L > 4: continue
-                for dm_rel in ('fit', 'slack', 'unterm', 'unterm_slack'):
+                for dm_rel in ('fit', 'slack', 'unterm', 'unterm_slack') if pats is None else ('fit', 'slack'):
                     if dm_rel.startswith('unterm') and L == 0: continue
-                    for pattern in (('A',), ('AB',), ('A', 'B'), ('E',), ('AB', 'L16'), ('L16',), ('L16', 'A'), ('L17',)):
+                    for pattern in (pats or (('A',), ('AB',), ('A', 'B'), ('E',), ('AB', 'L16'), ('L16',), ('L16', 'A'), ('L17',))):
                         if pattern in (('E',), ('AB', 'L16'), ('L16',), ('L16', 'A'), ('L17',)) and (L not in (2, 3, 4) or dm_rel == 'slack'): continue
                         s = list(chars)
                         if dm_rel == 'fit': body = s + [0]; dmax = L + 1
@@ -1598,7 +1602,7 @@ def c11_gen_dir(rng, classes, boundary=False):
     elif cls == 'char':
         conv = 'c'; length = ''; prec = None; flags = flags.replace('#', '').replace('0', '').replace('+', '').replace(' ', '')
         args = args[:1] if width == '*' else []; kinds = kinds[:len(args)]
-        args.append(rng.choice([65, 97, 48, 126, 200, 255, 1, 256 + 66])); kinds.append('i')
+        args.append(rng.choice([65, 97, 48, 126, 200, 255, 1, 256 + 66, 0, 0, 256])); kinds.append('i')
     elif cls == 'str':
         conv = 's'; length = ''; flags = flags.replace('#', '').replace('0', '').replace('+', '').replace(' ', '')
         args.append(rng.choice([b'', b'a', b'hello', b'x' * 40, 'héllo €'.encode(), b'abc def', b'%d'])); kinds.append('s')
@@ -1784,6 +1788,8 @@ def check_C11(rep, scr, tier, seed):
                 if m['kind'] == 'buffer':
                     dest = a.blocks[0]; dmax = m['dmax']
                     stored = dest[:dest.index(0)] if 0 in dest else None
+                    # a text with NUL characters in it (%c of 0) is delimited by the returned count, not by the first NUL
+                    if stored is not None and text is not None and 0 in text and 0 <= r < len(dest) and dest[r] == 0: stored = dest[:r]
                     rep.nontrivial.add((m['func'], m['convs'], r < 0, var))
                     if r >= 0:
                         if stored is None: fails.append(('unterminated', 'non-negative return but dest is not terminated'))
